@@ -2,6 +2,7 @@ import Momo.Proof.ObjMain
 import Momo.Proof.ArrFaultDone
 import Momo.Proof.ArrSegFaultOps
 import Momo.Proof.BTreeFaultCopy
+import Momo.Proof.HTLedgerCons
 /-!
 # C04 — Strongly exception-safe operations leave the container unchanged on failure
 
@@ -410,3 +411,231 @@ example : outcomeS ((stepS exCfgS {} (.setCount 7 (.elem 0))).run (exSysS []))
     = (true, [.live 10, .live 11, .live 12, .live 10, .live 10, .live 10, .live 10], 4, [2, 2, 2, 2], [4], 7, false) := by decide
 
 end Momo.ArrF.Seg
+
+/-!
+# C04 for the hash family: `momo::HashSet` / `momo::HashMap` with the ledger (model `Momo/Model/HTLedger.lean`)
+
+`Props/C11.lean` (`C11_add_every_fault_partial`, `C11_reserve_every_fault_partial`) states the strong guarantee of the hash-table
+model on the TABLE. This section adds what C04 says besides: "… nothing is leaked, and the container remains fully usable. A
+constructor that fails leaves nothing allocated and nothing constructed." Every operation of the ledger layer runs under an
+explicit fault record `f : Flt` (throwing hash / equality functor in the lookup, refused bucket array, refused `BucketParams`,
+refused crew block, throwing creator / copy / `AddCrt`, throwing assignment of `Replace`, migration stopped anywhere, copy
+construction failing after any number of items) and emits every manager call and element life-cycle event; `Led w B E` = the
+verified monitor `Ledger.run` has accepted all events of the world `w` and holds exactly the blocks `B` and the element objects
+`E`. `FB` / `FE` = whatever else is on the ledger (the other container, the node handle): arbitrary.
+
+Every theorem: for EVERY configuration (every bucket description, relocation category, sizes), hash function, container state
+with well-formed books (`BooksOK`: what every history reaches, `step_ok`), item, fault record. A failing operation returns
+`st' = st`: the SAME container - table (hence contents, order, count, capacity, generations), books of blocks and of element
+objects - and a ledger that holds exactly the blocks and element objects it held: the memory-manager part is unchanged without
+exception for the open-addressing kinds and One; for the chained kinds (LimP4 / LimP / LimP1 / UnlimP) the pools may in addition
+have obtained buffers (`stepT` books them as the operation's pool traffic `PoolT`: `St.bufs`, owned by the pools of the
+`BucketParams` block, given back by `Clear` / the destructor - `C04_hash_pool_traffic`).
+-/
+namespace Momo.HTL
+open Momo Momo.HT Momo.Ledger
+
+/-- **`pvAdd`: `Add(pos, …)` / `AddVar` / `AddCrt`, and the adding half of every insertion** (creator = construction from arguments
+/ copy / move, or relocation out of an `ExtractedItem`: `CrSpec`). If it exits with an exception - the bucket array is refused
+and there is no table to fall back to, the `BucketParams` block is refused (the array just obtained goes back), the creator /
+copy / `AddCrt` throws (a new bucket array and a new `BucketParams` block go back: `newBuckets->Destroy(…, !hasBuckets)`), the
+table is full - then the container is the same and the ledger holds exactly what it held. If it returns - whatever happened to
+the migration that follows - the ledger holds exactly the new books and they are well-formed. -/
+theorem C04_hash_add_strong (cfg : Cfg) (hf : Nat → Nat) (st : St) (it : Item) (cr : Creator) (f : Flt) (w : W)
+    (FB : List Blk) (FE FE' : List Nat) (hb : BooksOK st) (hcr : CrSpec (cr.run cfg) FE FE')
+    (h : Led w (st.blocks cfg ++ FB) (st.elems ++ FE)) :
+    ((addL cfg hf st it cr f w).2.2 ≠ .ok →
+      (addL cfg hf st it cr f w).1 = st ∧ Led (addL cfg hf st it cr f w).2.1 (st.blocks cfg ++ FB) (st.elems ++ FE)) ∧
+    ((addL cfg hf st it cr f w).2.2 = .ok →
+      Led (addL cfg hf st it cr f w).2.1 ((addL cfg hf st it cr f w).1.blocks cfg ++ FB)
+        ((addL cfg hf st it cr f w).1.elems ++ FE') ∧ BooksOK (addL cfg hf st it cr f w).1) :=
+  addL_led cfg hf st it cr f w FB FE FE' hb hcr h
+
+/-- **Insert / InsertVar / InsertCrt / emplace, map insertion and map-subscript insertion, `Insert(ExtractedItem&&)`** (`pvInsert` =
+`pvFind` + `pvAdd`): the same, including a hash or equality functor that throws in the lookup. (`.done .ok` is the only result
+that changes anything; `.no` = the key was there, `.user` = the functor threw.) -/
+theorem C04_hash_insert_strong (cfg : Cfg) (hf : Nat → Nat) (st : St) (it : Item) (cr : Creator) (f : Flt) (w : W)
+    (FB : List Blk) (FE FE' : List Nat) (hb : BooksOK st) (hcr : CrSpec (cr.run cfg) FE FE')
+    (h : Led w (st.blocks cfg ++ FB) (st.elems ++ FE)) :
+    ((insertL cfg hf st it cr f w).2.2 ≠ .done .ok →
+      (insertL cfg hf st it cr f w).1 = st ∧ Led (insertL cfg hf st it cr f w).2.1 (st.blocks cfg ++ FB) (st.elems ++ FE)) ∧
+    ((insertL cfg hf st it cr f w).2.2 = .done .ok →
+      Led (insertL cfg hf st it cr f w).2.1 ((insertL cfg hf st it cr f w).1.blocks cfg ++ FB)
+        ((insertL cfg hf st it cr f w).1.elems ++ FE') ∧ BooksOK (insertL cfg hf st it cr f w).1) :=
+  insertL_led cfg hf st it cr f w FB FE FE' hb hcr h
+
+/-- the two creators of the library satisfy `CrSpec`: a constructing creator adds one fresh element object; the creator of
+`Insert(ExtractedItem&&)` relocates the handle's object `e` (which leaves the frame) -/
+theorem C04_hash_creators (cfg : Cfg) (e : Nat) (FE FE' : List Nat) (hp : FE.Perm (e :: FE')) :
+    CrSpec (Creator.fresh.run cfg) FE FE ∧ CrSpec ((Creator.handle e).run cfg) FE FE' :=
+  ⟨crSpec_fresh cfg FE, crSpec_handle cfg e FE FE' hp⟩
+
+/-- **Remove(key) / Remove(pos) / Remove(iter)**: a removal that exits with an exception - the functor threw in the lookup, or the
+assignment inside `ObjectManager::Replace` threw (items that are not nothrow-anyway-assignable) - has changed nothing and has not
+emitted a single event. Otherwise the ledger holds exactly the new books. -/
+theorem C04_hash_remove_strong (cfg : Cfg) (hf : Nat → Nat) (st : St) (k : Nat) (f : Flt) (w : W) (FB : List Blk) (FE : List Nat)
+    (hb : BooksOK st) (h : Led w (st.blocks cfg ++ FB) (st.elems ++ FE)) :
+    ((removeKeyL cfg hf st k f w).2.2 ≠ .done .ok → (removeKeyL cfg hf st k f w).1 = st ∧ (removeKeyL cfg hf st k f w).2.1 = w) ∧
+    Led (removeKeyL cfg hf st k f w).2.1 ((removeKeyL cfg hf st k f w).1.blocks cfg ++ FB)
+      ((removeKeyL cfg hf st k f w).1.elems ++ FE) ∧ BooksOK (removeKeyL cfg hf st k f w).1 :=
+  removeKeyL_led cfg hf st k f w FB FE hb h
+
+/-- **Extract(pos) / Remove(iter, extItem)** (`pvExtract`: `Relocate` or `ReplaceRelocate` into the handle): if it exits with an
+exception - the copy into the handle threw, or the assignment of `Replace` threw after it (the copy in the handle is destroyed
+again) - the container is the same and the ledger holds exactly what it held; otherwise it holds the new books plus the handle's
+object `h`. -/
+theorem C04_hash_extract_strong (cfg : Cfg) (st : St) (gi b j : Nat) (f : Flt) (w : W) (FB : List Blk) (FE : List Nat)
+    (hb : BooksOK st) (h : Led w (st.blocks cfg ++ FB) (st.elems ++ FE)) :
+    ((extractAtL cfg st gi b j f w).2.2 = none →
+      (extractAtL cfg st gi b j f w).1 = st ∧ Led (extractAtL cfg st gi b j f w).2.1 (st.blocks cfg ++ FB) (st.elems ++ FE)) ∧
+    (∀ hh, (extractAtL cfg st gi b j f w).2.2 = some hh →
+      Led (extractAtL cfg st gi b j f w).2.1 ((extractAtL cfg st gi b j f w).1.blocks cfg ++ FB)
+        ((extractAtL cfg st gi b j f w).1.elems ++ hh :: FE) ∧ BooksOK (extractAtL cfg st gi b j f w).1) := by
+  have he := extractAtL_led cfg st gi b j f w FB FE hb h
+  generalize extractAtL cfg st gi b j f w = r at he ⊢
+  obtain ⟨st1, w1, oh⟩ := r
+  cases oh with
+  | none => exact ⟨fun _ => he, fun hh hc => by simp at hc⟩
+  | some x =>
+    obtain ⟨e1, e2, _⟩ := he
+    refine ⟨fun hc => by simp at hc, fun hh hc => ?_⟩
+    simp only [Option.some.injEq] at hc
+    subst hc
+    exact ⟨e1, e2⟩
+
+/-- **Reserve**: a refused bucket array or `BucketParams` block leaves container and ledger as they were (`Reserve` never fails
+once the array exists: failures of the migration are swallowed and leave several generations, all on the books). -/
+theorem C04_hash_reserve_strong (cfg : Cfg) (hf : Nat → Nat) (st : St) (c : Nat) (f : Flt) (w : W) (FB : List Blk) (FE : List Nat)
+    (hb : BooksOK st) (h : Led w (st.blocks cfg ++ FB) (st.elems ++ FE)) :
+    ((reserveL cfg hf st c f w).2.2 ≠ .ok →
+      (reserveL cfg hf st c f w).1 = st ∧ Led (reserveL cfg hf st c f w).2.1 (st.blocks cfg ++ FB) (st.elems ++ FE)) ∧
+    Led (reserveL cfg hf st c f w).2.1 ((reserveL cfg hf st c f w).1.blocks cfg ++ FB)
+      ((reserveL cfg hf st c f w).1.elems ++ FE) ∧ BooksOK (reserveL cfg hf st c f w).1 :=
+  reserveL_led cfg hf st c f w FB FE hb h
+
+/-- **Constructors: "A constructor that fails leaves nothing allocated and nothing constructed."** `HashSet()` (`newL`: the crew
+block) and `HashSet(const HashSet&)` (`copyL`: crew block, bucket array, `BucketParams`, one copy per item, each preceded by a call of
+the hash functor): if the constructor throws at ANY of these points (`f.crew`, `f.grow`, `f.params`, `f.copyStop = some n` for any
+`n`), the ledger holds exactly what it held before - in particular an empty ledger stays empty; if it returns, the ledger gained
+exactly the books of the new container. -/
+theorem C04_hash_constructor_clean (cfg : Cfg) (hf : Nat → Nat) (src : St) (f : Flt) (w : W) (FB : List Blk) (FE : List Nat)
+    (hsrc : ∀ k e, lookE src.els k = some e → e ∈ FE) (h : Led w FB FE) :
+    CtorPost cfg FB FE (newL cfg f w) ∧ CtorPost cfg FB FE (copyL cfg hf src f w) ∧
+    ((copyL cfg hf src f w).1 = none → FB = [] → FE = [] → Ledger.balanced (copyL cfg hf src f w).2.evs = true) := by
+  refine ⟨newL_led cfg f w FB FE h, copyL_led cfg hf src f w FB FE hsrc h, fun hn hB hE => ?_⟩
+  have := copyL_led cfg hf src f w FB FE hsrc h
+  generalize copyL cfg hf src f w = r at this hn
+  obtain ⟨o, w1⟩ := r
+  simp only at hn
+  subst hn hB hE
+  exact led_nil_balanced this
+
+/-- **Copy assignment `B = A`** (`HashSet(hashSet).Swap(*this)`): if it exits with an exception, A, B and the handle are the same
+and the ledger holds what it held (`SysOK`); otherwise B's old contents have been destroyed and given back. -/
+theorem C04_hash_copy_assign_strong (cfg : Cfg) (hf : Nat → Nat) (s : Sys) (f : Flt) (h : SysOK cfg s) :
+    SysOK cfg (step cfg hf s (.copyTo f)).1 ∧
+    ((copyL cfg hf s.a f s.w).1 = none →
+      (step cfg hf s (.copyTo f)).1.a = s.a ∧ (step cfg hf s (.copyTo f)).1.b = s.b ∧ (step cfg hf s (.copyTo f)).1.h = s.h) := by
+  refine ⟨step_ok cfg hf s _ h, fun hn => ?_⟩
+  simp only [step]
+  generalize copyL cfg hf s.a f s.w = r at hn ⊢
+  obtain ⟨o, w1⟩ := r
+  simp only at hn
+  subst hn
+  exact ⟨rfl, rfl, rfl⟩
+
+/-- **"… and the container remains fully usable."** After a failed insertion the container is the very same one (above); its books
+stay consistent with its table (`Consistent`, in particular the table invariant of C01), so every theorem applies to it again; and
+the same insertion retried without a fault succeeds and gives the table of the fault-free hash-table model on the ORIGINAL
+table. -/
+theorem C04_hash_usable_after (cfg : Cfg) (hf : Nat → Nat) (ok : SpecOK cfg.sp) (st : St) (it : Item) (f f' : Flt) (w w' : W)
+    (hc : Consistent cfg hf st) (hfail : (insertL cfg hf st it .fresh f w).2.2 ≠ .done .ok)
+    (hkey : findTable cfg.sp hf st.t it.key = none)
+    (hclean : f'.hashThrows = false ∧ f'.eqThrows = false ∧ f'.grow = false ∧ f'.params = false ∧ f'.create = false) :
+    (insertL cfg hf st it .fresh f w).1 = st ∧ Consistent cfg hf (insertL cfg hf st it .fresh f w).1 ∧
+    (insertL cfg hf (insertL cfg hf st it .fresh f w).1 it .fresh f' w').2.2 = .done .ok ∧
+    (insertL cfg hf (insertL cfg hf st it .fresh f w).1 it .fresh f' w').1.t =
+      (add cfg.sp hf st.t it (toFaults cfg st false f')).1 := by
+  have hsame : (insertL cfg hf st it .fresh f w).1 = st := by
+    by_cases hfl : (f.hashThrows || f.eqThrows) = true
+    · simp only [insertL, hfl, if_true]
+    · have hfl' : (f.hashThrows || f.eqThrows) = false := by simpa using hfl
+      simp only [insertL, hfl', Bool.false_eq_true, if_false, hkey] at hfail ⊢
+      exact addL_fail_same cfg hf st it .fresh f w hc.shape (fun hk => hfail (by rw [hk]))
+  obtain ⟨c1, c2, c3, c4, c5⟩ := hclean
+  rw [hsame]
+  refine ⟨rfl, hc, ?_, ?_⟩
+  · simp only [insertL, c1, c2, Bool.or_self, Bool.false_eq_true, if_false, hkey]
+    rw [(addL_table cfg hf st it .fresh f' w').2]
+    rw [add_nofault_ok cfg.sp hf ok st.t it _ hc.inv.core (by simp [toFaults, c3, c4]) (by simp [toFaults, Creator.throws, c5])]
+  · simp only [insertL, c1, c2, Bool.or_self, Bool.false_eq_true, if_false, hkey]
+    have := (addL_table cfg hf st it .fresh f' w').1
+    simpa [Creator.throws, c5] using this
+
+/-- **The tables of the ledger layer are the tables of the hash-table model of C01 / C11** under the faults the record stands for,
+so `C11_add_every_fault_partial`, `C11_reserve_every_fault_partial` and all of Props/C01.lean speak about them: observable
+contents, order and count after a failed AND after a successful operation are those proved there. -/
+theorem C04_hash_tables_are_model (cfg : Cfg) (hf : Nat → Nat) (st : St) (it : Item) (cr : Creator) (c : Nat) (f : Flt) (w : W) :
+    (addL cfg hf st it cr f w).1.t = (add cfg.sp hf st.t it (toFaults cfg st (cr.throws cfg f) f)).1 ∧
+    (addL cfg hf st it cr f w).2.2 = (add cfg.sp hf st.t it (toFaults cfg st (cr.throws cfg f) f)).2 ∧
+    (reserveL cfg hf st c f w).1.t = (reserve cfg.sp hf st.t c (toFaults cfg st false f)).1 ∧
+    (reserveL cfg hf st c f w).2.2 = (reserve cfg.sp hf st.t c (toFaults cfg st false f)).2 ∧
+    FaultsOK cfg.sp (toFaults cfg st (cr.throws cfg f) f) :=
+  ⟨(addL_table cfg hf st it cr f w).1, (addL_table cfg hf st it cr f w).2, (reserveL_table cfg hf st c f w).1,
+    (reserveL_table cfg hf st c f w).2, toFaults_ok cfg st _ f⟩
+
+/-- **The memory-manager part, exactly**: the pool traffic of an operation (chained kinds: buffers the pools obtained and kept,
+buffers they gave back - decided by `MemPool`, C09) changes nothing but `St.bufs`: table, element objects, bucket arrays,
+`BucketParams` and crew block are those the operation itself left, and the ledger follows. Without a `BucketParams` block (no
+table) and for the kinds without pools there is no traffic at all. -/
+theorem C04_hash_pool_traffic (cfg : Cfg) (st : St) (p : PoolT) (w : W) (FB : List Blk) (E : List Nat)
+    (h : Led w (st.blocks cfg ++ FB) E) :
+    Led (poolTraffic cfg st p w).2 ((poolTraffic cfg st p w).1.blocks cfg ++ FB) E ∧
+    (poolTraffic cfg st p w).1.t = st.t ∧ (poolTraffic cfg st p w).1.els = st.els ∧
+    (poolTraffic cfg st p w).1.arrs = st.arrs ∧ (poolTraffic cfg st p w).1.params = st.params ∧
+    (poolTraffic cfg st p w).1.crew = st.crew ∧
+    ((cfg.chained = false ∨ st.params = none) → poolTraffic cfg st p w = (st, w)) := by
+  obtain ⟨a1, a2, a3, a4, a5, a6⟩ := poolTraffic_led cfg st p w FB E h
+  refine ⟨a1, a2, a3, a4, a5, a6, fun hc => ?_⟩
+  rcases hc with hc | hc <;> simp [poolTraffic, hc]
+
+/-! Non-vacuity: an Open2N2-like table of copy-only items with a two-generation state; every kind of failing insertion, a
+failing removal, a failing extraction, a failing copy construction - each leaves table, books and the monitor's holdings as they
+were. -/
+def x5Cfg : Cfg :=
+  { sp := { maxCount := 1, quad := true, fullFrom := 0, unlimited := false, bound := .mp2, cap := .ratio 11 12, baseShift := false,
+            logStart := 1, nothrowReloc := false },
+    cat := .copyOnly, assign := false, hdr := 24, bsz := 8, psz := 8, csz := 16 }
+/-- two generations (4 and 2 buckets) after an interrupted migration -/
+def x5Sys : Sys :=
+  run x5Cfg id (Sys.init x5Cfg) [{ op := .ins false 1 10 {} }, { op := .ins false 2 20 { mig := some 0 } },
+    { op := .ins false 3 30 { mig := some 0 } }]
+def x5Hold (s : Sys) : Option (Nat × Nat) := (Ledger.run Ledger.St.init s.w.evs).map (fun m => m.outstanding)
+def x5Same (s : Sys) : Bool :=
+  decide (s.a.t.gens.map (fun g => (g.L, genCount g)) = x5Sys.a.t.gens.map (fun g => (g.L, genCount g))) &&
+  decide (s.a.els = x5Sys.a.els) && decide (s.a.arrs = x5Sys.a.arrs) && decide (x5Hold s = x5Hold x5Sys)
+
+example : x5Sys.a.t.gens.map (fun g => (g.L, genCount g)) = [(2, 2), (1, 1)] ∧ x5Hold x5Sys = some (5, 3) ∧
+    x5Sys.a.t.count = x5Sys.a.t.cap := by decide
+/-- the table is at capacity: the next insertion has to grow. Bucket array refused: the insertion falls back to the existing
+    table, succeeds, and its migration completes (one generation, the old array given back) -/
+example : (step x5Cfg id x5Sys (.ins false 4 40 { grow := true })).2 matches .res (.done .ok) := by decide
+example : (step x5Cfg id x5Sys (.ins false 4 40 { grow := true })).1.a.t.gens.map (fun g => (g.L, genCount g)) = [(2, 4)] ∧
+    x5Hold (step x5Cfg id x5Sys (.ins false 4 40 { grow := true })).1 = some (4, 4) := by decide
+/-- the creator throws after the new bucket array has been obtained: it goes back (two events), everything else as before -/
+example : x5Same (step x5Cfg id x5Sys (.ins false 4 40 { create := true })).1 = true := by decide
+example : ((step x5Cfg id x5Sys (.ins false 4 40 { create := true })).1.w.evs.drop x5Sys.w.evs.length).length = 2 := by decide
+/-- the hash functor throws in the lookup -/
+example : x5Same (step x5Cfg id x5Sys (.ins false 4 40 { hashThrows := true })).1 = true := by decide
+/-- the assignment inside `Replace` throws during a removal -/
+example : x5Same (step x5Cfg id x5Sys (.rem 1 { assignThrows := true })).1 = true := by decide
+/-- the copy into the handle throws during an extraction -/
+example : x5Same (step x5Cfg id x5Sys (.ext 1 { create := true })).1 = true := by decide
+/-- a copy construction failing after one item: the copy is destroyed, `BucketParams`, array and crew go back (nine events) -/
+example : x5Same (step x5Cfg id x5Sys (.copyTo { copyStop := some 1 })).1 = true := by decide
+example : ((step x5Cfg id x5Sys (.copyTo { copyStop := some 1 })).1.w.evs.drop x5Sys.w.evs.length).length = 9 := by decide
+/-- … and a successful one: B holds three new element objects; crew, array and `BucketParams` of the copy are outstanding, B's old
+    crew block has gone -/
+example : x5Hold (step x5Cfg id x5Sys (.copyTo {})).1 = some (7, 6) := by decide
+
+end Momo.HTL
